@@ -343,7 +343,7 @@ impl Uplinks {
                                             backpressure,
                                         )))),
                                     )
-                                } else {
+                                } else if backpressure.has_data() {
                                     backpressure.prepare_write(&mut buffer);
                                     if backpressure.has_data() {
                                         write_queue.push_back((UplinkKind::Map, lane_id));
@@ -354,6 +354,10 @@ impl Uplinks {
                                         registry.name_for(lane_id).expect(UNREGISTERED_LANE);
                                     sender.update_lane(lane_name);
                                     WriteTask::new(sender, buffer, WriteAction::Event)
+                                } else {
+                                    // A stale queue entry: there is nothing to write.
+                                    *queued = false;
+                                    continue;
                                 };
                                 break Some(write);
                             }
